@@ -8,6 +8,17 @@ VERIF = os.path.dirname(os.path.dirname(os.path.abspath(__file__)))
 
 # id -> (category, technique, level text, level note, design ref)
 CHECKS = {
+    "C01": (
+        "exploration",
+        "exhaustive enumeration of the finite (calendar, day) and (y, m, d) spaces against the day-number line (round-trip + invariants)",
+        "thorough tier enumerates every (calendar, day number) pair of every calendar id and every (y,m,d) triple in "
+        "and just outside the tables (evidence exhaustive=true): day->date->day round trip, strict order of "
+        "consecutive days, field ranges, day-of-year, year length = distance of year starts = sum of months, eras, "
+        "cross-calendar round trip, rejection outside the range. quick tier: all year boundaries, all year tables, a "
+        "seed-chosen twelfth of all years day by day.",
+        "Trusted: CPython ints; the day-number line as the model. Internal entry LocalDate._ctor(days_since_epoch=, calendar=) is used for the day->date direction (it is what with_calendar / plus_days use).",
+        "DESIGN.md §2 C01",
+    ),
     "C03": (
         "exploration",
         "Hypothesis property-based testing against an int reference model + exhaustive enumeration of Offset",
